@@ -282,7 +282,7 @@ func classify(l lit, v verdict, entry string, fs, sfs []failure) (out []failure)
 	}
 	// moduli larger than the documented maximum that the constructor nevertheless accepted
 	big := ""
-	for _, tag := range []string{"P-bitlen-63", "Q-bitlen-62", "P-bitlen-62"} {
+	for _, tag := range []string{"P-bitlen-63", "Q-bitlen-62", "P-bitlen-62", "Q-bitlen-61"} {
 		for _, g := range v.Gray {
 			if g == tag && big == "" {
 				big = tag
@@ -384,9 +384,13 @@ func litCases(tier string, seed int64) []eng.Case {
 					idx := b*perBatch + i
 					scheme := schemes[idx%3]
 					var m string
-					if idx/3 < len(muts)*2 {
-						m = muts[(idx/3)%len(muts)] // systematic part: every mutation twice per scheme
-					} else {
+					sc := schemeClasses(scheme)
+					switch k := idx / 3; {
+					case k < len(muts)*2:
+						m = muts[k%len(muts)] // systematic part: every mutation twice per scheme
+					case k < len(muts)*2+len(sc)*3:
+						m = "scheme/" + sc[(k-len(muts)*2)%len(sc)] // every scheme-level class three times
+					default:
 						m = eng.Pick(r, mutations...)
 					}
 					base, ok := baseLit(r, scheme, logNs)
@@ -405,6 +409,30 @@ func litCases(tier string, seed int64) []eng.Case {
 				}
 				flushStats(c, st)
 			}})
+	}
+	// the ends of the admissible ring degrees, with primes that are NTT-friendly for every degree up
+	// to 2^22 (so that only the degree decides): MinLogN-1, MinLogN, MaxLogN, MaxLogN+1
+	for _, ln := range []int{minLogN - 1, minLogN, maxLogN, maxLogN + 1} {
+		for _, rt := range []int{0, 1} {
+			if ln == maxLogN && rt == 1 && tier != "thorough" {
+				continue
+			}
+			ln, rt := ln, rt
+			out = append(out, eng.Case{ID: fmt.Sprintf("lit/boundary-logN%d-ring%d", ln, rt), Sig: "C19|literals", Desc: map[string]int{"logN": ln, "ring": rt},
+				Run: func(c *eng.Ctx) {
+					q := gen.Primes(45, 1<<24, 2, gen.PosAbove, nil)
+					p := gen.Primes(50, 1<<24, 1, gen.PosBelow, nil)
+					st := &litStats{}
+					for _, scheme := range []string{"rlwe", "ckks", "bgv"} {
+						if ln == maxLogN && scheme != "rlwe" || scheme == "bgv" && rt == 1 {
+							continue // one full-size context is enough
+						}
+						l := lit{Scheme: scheme, LogN: ln, Q: q, P: p, Ring: rt, NTT: true, LogScale: 30, T: 65537, Mut: "boundary-logN"}
+						runLit(c, l, st)
+					}
+					flushStats(c, st)
+				}})
+		}
 	}
 	return out
 }
